@@ -160,6 +160,33 @@ def rule_route(ctx):
         ctx.ok("LF.ROUTE", LF + ".replace_curve_item#index", fi, fi.node, "replace assigns in place")
     else:
         ctx.bad("LF.ROUTE", LF + ".replace_curve_item#index", fi, fi.node, "replace_curve_item neither deletes+inserts nor assigns in place")
+    # (e) positions are handed to the list unchanged: insert_curve_item / insert_curve / delete_curve(ix=) do not rewrite `ix`
+    #     (list.insert and list.pop already define negative and out-of-range positions; replace_curve_item is the documented exception)
+    for m in ("insert_curve_item", "insert_curve", "append_curve_item", "delete_curve"):
+        fi = cls.methods.get(m)
+        if fi is None or "ix" not in fi.params():
+            continue
+        rew = [s_ for s_ in walk_shallow(fi.node) if isinstance(s_, (ast.Assign, ast.AugAssign)) and any(
+            isinstance(t, ast.Name) and t.id == "ix" for t in (s_.targets if isinstance(s_, ast.Assign) else [s_.target]))]
+        if m == "delete_curve":
+            # ix may be *computed from the mnemonic* when it was not given; any other rewrite changes the position
+            rew = [s_ for s_ in rew if "mnemonic" not in ast.unparse(s_.value)]
+        ctx.check(not rew, "LF.ROUTE", "%s.%s#position" % (LF, m), fi, rew[0] if rew else fi.node,
+                  "%s hands the position to the list as given" % m,
+                  "%s rewrites the position (`%s`): list.insert/pop already define negative and out-of-range positions, so e.g. "
+                  "insert at -3 into a list of 2 no longer puts the curve first" % (m, unparse(rew[0]) if rew else ""))
+    # (f) set_data: whether the array is truncated to the declared curves depends on the `truncate` option alone
+    fi = cls.methods.get("set_data")
+    if fi is not None and "truncate" in fi.params():
+        tests = [s_ for s_ in walk_shallow(fi.node) if isinstance(s_, (ast.If, ast.IfExp)) and any(
+            isinstance(x, ast.Name) and x.id == "truncate" for x in ast.walk(s_.test))]
+        bad_t = [s_ for s_ in tests if not (isinstance(s_.test, ast.Name) or (
+            isinstance(s_.test, ast.Compare) and isinstance(s_.test.left, ast.Name) and s_.test.left.id == "truncate"
+            and isinstance(s_.test.comparators[0], ast.Constant)))]
+        ctx.check(bool(tests) and not bad_t, "LF.ROUTE", LF + ".set_data#truncate", fi, (bad_t[0] if bad_t else fi.node),
+                  "truncation is decided by `truncate` alone",
+                  ("truncation also depends on `%s`: with no curves (or whatever else is tested) the surplus columns become new curves "
+                   "although truncate=True" % unparse(bad_t[0].test)) if bad_t else "set_data no longer honours `truncate`")
     ctx.floor("LF.ROUTE", 12)
 
 
@@ -819,3 +846,92 @@ def rule_write_no_state(ctx):
             ctx.ok("WR.NO-STATE", site, fi, fi.node, "keeps nothing between calls (no module/class state, no mutated default argument)",
                    nontrivial=bool(mut) or fi.module.name == "writer")
     ctx.floor("WR.NO-STATE", 5)
+
+
+def rule_pu_cookie(ctx):
+    """PU.COOKIE: a section address is the tell() cookie of the line start, handed back to seek() unchanged: text-mode
+    cookies are opaque (UTF-16: two bytes per character, BOM state), so arithmetic on them addresses a different place"""
+    p = ctx.p
+    fi = p.func("reader.find_sections_in_file")
+    site = fi.qual + "#address"
+    apps = [c for c in walk_shallow(fi.node) if isinstance(c, ast.Call) and isinstance(c.func, ast.Attribute) and c.func.attr == "append"
+            and c.args and isinstance(c.args[0], ast.Tuple) and len(c.args[0].elts) >= 3]
+    if not apps:
+        ctx.undecided("PU.COOKIE", site, fi, fi.node, "no `<list>.append((pos, line_no, title))` in find_sections_in_file")
+        return
+    for c in apps:
+        pos = c.args[0].elts[0]
+        problems = []
+        if not isinstance(pos, ast.Name):
+            problems.append("the recorded position is `%s`, not the tell() value itself" % unparse(pos))
+        else:
+            defs = [s_.value for s_ in walk_shallow(fi.node) if isinstance(s_, ast.Assign) and any(isinstance(t, ast.Name) and t.id == pos.id for t in s_.targets)]
+            for d in defs:
+                inner = d.args[0] if isinstance(d, ast.Call) and isinstance(d.func, ast.Name) and d.func.id == "int" and len(d.args) == 1 else d
+                if not (isinstance(inner, ast.Call) and isinstance(inner.func, ast.Attribute) and inner.func.attr == "tell" and not inner.args):
+                    problems.append("`%s = %s` is not a plain tell()" % (pos.id, unparse(d)))
+            if not defs:
+                ctx.undecided("PU.COOKIE", site, fi, c, "`%s` is not assigned in find_sections_in_file (it is produced elsewhere)" % pos.id)
+                continue
+        ctx.check(not problems, "PU.COOKIE", site, fi, c, "section addresses are unmodified tell() cookies", "; ".join(problems) +
+                  ": for a UTF-16 file (or any multi-byte codec) the computed address is not a valid position of the text stream")
+    ctx.floor("PU.COOKIE", 1)
+
+
+CHANNEL_PROBES = [("~V\n1 2", True), ("~V\r\n1 2", True), ("~Version\nVERS. 2.0 : x\n~A\n1 2\n", True), ("x.las", False),
+                  ("C:\\data\\well 1.las", False), ("~A\n1670.0 50.5 -999.25", True)]
+
+
+def rule_pu_channel_table(ctx):
+    """PU.CHANNEL (decision table): a str argument is LAS content exactly when it has more than one line; the test in
+    open_file is folded over probe strings (two-line texts without a final line break included)"""
+    from sa.consts import fold, NotConst
+    p = ctx.p
+    fo = p.func("reader.open_file")
+    fparam = fo.params()[0]
+    site = "reader.open_file#content-or-filename"
+    wraps = [c for c in ast.walk(fo.node) if isinstance(c, ast.Call) and ast.unparse(c.func).endswith("StringIO") and c.args
+             and isinstance(c.args[0], ast.Name) and c.args[0].id == fparam]
+    if not wraps:
+        ctx.undecided("PU.CHANNEL", site, fo, fo.node, "no StringIO(<text argument>) in open_file")
+        return
+    w = wraps[0]
+    iff = enclosing(w, (ast.If,))
+    if iff is None:
+        ctx.undecided("PU.CHANNEL", site, fo, w, "the StringIO wrap is not under an if")
+        return
+    test = iff.test
+    defs = {}
+    for s_ in walk_shallow(fo.node):
+        if isinstance(s_, ast.Assign) and len(s_.targets) == 1 and isinstance(s_.targets[0], ast.Name):
+            defs.setdefault(s_.targets[0].id, []).append(s_.value)
+    problems = []
+    n_eval = 0
+    for text, want in CHANNEL_PROBES:
+        depth = [0]
+
+        def env(name, text=text):
+            if name == fparam:
+                return text
+            if name in defs and len(defs[name]) == 1:
+                depth[0] += 1
+                if depth[0] > 20:
+                    raise NotConst("cyclic")
+                try:
+                    return fold(defs[name][0], env)
+                finally:
+                    depth[0] -= 1
+            raise NotConst("name %s" % name)
+        try:
+            got = bool(fold(test, env))
+        except NotConst:
+            continue
+        n_eval += 1
+        if got != want:
+            problems.append("%r is taken for %s" % (text, "LAS content" if got else "a file name"))
+    if n_eval < 4:
+        ctx.undecided("PU.CHANNEL", site, fo, test, "the content-or-filename test `%s` could be folded for %d probes only" % (unparse(test), n_eval))
+        return
+    ctx.check(not problems, "PU.CHANNEL", site, fo, test, "a string with more than one line is content, a single line is a file name "
+              "(%d probe strings)" % n_eval, "; ".join(problems) + ": the same text read through StringIO or from a file gives a result, "
+              "as a string it raises FileNotFoundError")
